@@ -78,6 +78,15 @@ theorem dedupBatch_legacy_counterexample :
   simp at ho; subst ho
   exact absurd hd.2.1 (by decide)
 
+/-- what the pinned loop does guarantee: correct for every batch in which no series id and no
+    timestamp is 0 (it then coincides step by step with the repaired loop) -/
+theorem dedupBatch_legacy_partial (cfg : Cfg) (hleg : cfg.fixedInit = false) (batch sorted : List Row)
+    (hperm : sorted.Perm batch) (hs : DpSorted sorted) (hnz : ∀ r ∈ batch, r.sid ≠ 0 ∧ r.ts ≠ 0) :
+    IsResolution batch (rowsOf (initFromSorted cfg sorted)) :=
+  initFromSorted_legacy_spec cfg hleg batch sorted hperm hs hnz
+
+example : ∀ r ∈ [exRow 1 5 5, exRow 1 5 2, exRow 2 (-3) 1], r.sid ≠ 0 ∧ r.ts ≠ 0 := by decide
+
 /-! ## merge of two blocks -/
 
 /-- the loop of `mergeTwoBlocks` (role swap on every iteration) terminates within the fuel the model
